@@ -149,22 +149,27 @@ func (h *Headers) Serialize(frh *FrameHeader) {
 			frh.Flags().Add(FlagEndHeaders))
 	}
 
+	// The payload is assembled in the frame header's buffer. Prepending the
+	// priority section and the padding to rawHeaders itself changed the frame:
+	// writing the same Headers twice sent them as part of the header block.
+	payload := frh.payload[:0]
+
 	if h.priority {
 		frh.SetFlags(
 			frh.Flags().Add(FlagPriority))
 
-		// prepend stream and weight to rawHeaders
-		h.rawHeaders = append(h.rawHeaders, 0, 0, 0, 0, 0)
-		copy(h.rawHeaders[5:], h.rawHeaders)
-		http2utils.Uint32ToBytes(h.rawHeaders[0:4], h.stream)
-		h.rawHeaders[4] = h.weight
+		payload = http2utils.AppendUint32Bytes(payload, h.stream)
+		payload = append(payload, h.weight)
 	}
+
+	payload = append(payload, h.rawHeaders...)
 
 	if h.hasPadding {
 		frh.SetFlags(
 			frh.Flags().Add(FlagPadded))
-		h.rawHeaders = http2utils.AddPadding(h.rawHeaders)
+
+		payload = http2utils.AddPadding(payload)
 	}
 
-	frh.payload = append(frh.payload[:0], h.rawHeaders...)
+	frh.payload = payload
 }
